@@ -8,6 +8,7 @@ import (
 	"runtime"
 	"strconv"
 	"sync"
+	"sync/atomic"
 	"testing"
 	"testing/synctest"
 	"time"
@@ -54,6 +55,7 @@ type WireRec struct {
 	T      int64  `json:"t"`
 	Mark   string `json:"mark"`
 	Trid   []int  `json:"trid"` // TestReqID (112) bytes of a TestRequest / of the Heartbeat echoing it
+	Framed bool   `json:"framed"` // BodyLength and CheckSum agree with the bytes (the harness' own tokenizer)
 }
 
 type WireObs struct {
@@ -158,7 +160,7 @@ func (m *gatedMsg) ToBytes() ([]byte, error) {
 
 func wireRec(raw []byte, all *[][]byte, t int64) WireRec {
 	d := MakeDigest(raw)
-	w := WireRec{Ty: d.Ty, Seq: d.Seq, Sender: ints([]byte(d.Sender)), Target: ints([]byte(d.Target)), Time: ints([]byte(d.Time)), T: t, Trid: d.Trid}
+	w := WireRec{Ty: d.Ty, Seq: d.Seq, Sender: ints([]byte(d.Sender)), Target: ints([]byte(d.Target)), Time: ints([]byte(d.Time)), T: t, Trid: d.Trid, Framed: d.Framed}
 	if w.Trid == nil {
 		w.Trid = []int{}
 	}
@@ -409,6 +411,7 @@ func RunStress(t *testing.T, sc *SPScenario) (obs *WireObs, failure string) {
 			failure = "stress rig: logon did not succeed"
 		}
 		var wg sync.WaitGroup
+		var okSends int64
 		for i := 0; i < sc.N; i++ {
 			i := i
 			wg.Add(1)
@@ -427,7 +430,10 @@ func RunStress(t *testing.T, sc *SPScenario) (obs *WireObs, failure string) {
 							m = ParsedRequest("x")
 						}
 					}
-					_ = r.S.Send(m.SetMDReqID("s" + strconv.Itoa(i) + "-" + strconv.Itoa(k)))
+					// (a send that returns an error - the session has meanwhile disconnected a peer that fell silent - is not "sent")
+					if r.S.Send(m.SetMDReqID("s"+strconv.Itoa(i)+"-"+strconv.Itoa(k))) == nil {
+						atomic.AddInt64(&okSends, 1)
+					}
 				}
 			}()
 		}
@@ -464,7 +470,7 @@ func RunStress(t *testing.T, sc *SPScenario) (obs *WireObs, failure string) {
 		}
 		mu.Unlock()
 		obs = &WireObs{K: "wire", ID: sc.ID, Kind: "stress", Start: sc.StartSeq, Virtual: true, Msgs: wire, ExpEcho: []int{},
-			Expected: sc.N * sc.PerSender, Feasible: true, Gate: "", Order: []int{}}
+			Expected: int(atomic.LoadInt64(&okSends)), Feasible: true, Gate: "", Order: []int{}}
 		if sc.Role == "acceptor" {
 			obs.ExpSender, obs.ExpTarget = ints([]byte(ourID)), ints([]byte(peerID))
 		} else {
@@ -480,3 +486,158 @@ func WireRecOf(raw []byte, all *[][]byte, t int64) WireRec { return wireRec(raw,
 
 // Ints exposes ints.
 func Ints(b []byte) []int { return ints(b) }
+
+// ---- a retransmission is requested while the newest message is being serialized ----
+
+// pauseValue is an application-provided field value (fix.Value is an interface): its FIRST serialization reports that it has
+// begun and waits until it is released - the message is then in the middle of being serialized (its number taken, stored,
+// its header already measured), which is where an inbound ResendRequest reaches the session.
+type pauseValue struct {
+	inner   *fix.String
+	once    sync.Once
+	entered chan struct{}
+	release chan struct{}
+}
+
+func (p *pauseValue) ToBytes() []byte {
+	p.once.Do(func() {
+		close(p.entered)
+		select {
+		case <-p.release:
+		case <-time.After(3 * time.Second):
+		}
+	})
+	return p.inner.ToBytes()
+}
+
+func (p *pauseValue) FromBytes(d []byte) error { return p.inner.FromBytes(d) }
+func (p *pauseValue) Value() interface{}       { return p.inner.Value() }
+func (p *pauseValue) String() string           { return p.inner.String() }
+func (p *pauseValue) IsNull() bool             { return p.inner.IsNull() }
+func (p *pauseValue) Set(v interface{}) error  { return p.inner.Set(v) }
+
+// RunMidSer: logon, a few messages, then one message whose serialization pauses; meanwhile the peer asks for everything sent so
+// far (EndSeqNo = 0: up to the last message sent - which is the one being serialized); the serialization goes on. Everything on
+// the wire is judged by WireTrace (numbering of first transmissions, identifiers, framing).
+func RunMidSer(sc *SPScenario) (*WireObs, string) {
+	ctx, cancel := context.WithCancel(context.Background())
+	defer cancel()
+	mem := memory.NewStorage()
+	var h *simplefixgo.DefaultHandler
+	var s *session.Session
+	var err error
+	if sc.Role == "acceptor" {
+		h = simplefixgo.NewAcceptorHandler(ctx, fixgen.FieldMsgType, sc.Buf)
+		s, err = session.NewAcceptorSession(Opts([]string{"0"}), h, &session.LogonSettings{
+			LogonTimeout: time.Second * 30, HeartBtLimits: &session.IntLimits{Min: 1, Max: 60}},
+			func(*session.LogonSettings) error { return nil }, mem, mem)
+	} else {
+		h = simplefixgo.NewInitiatorHandler(ctx, fixgen.FieldMsgType, sc.Buf)
+		s, err = session.NewInitiatorSession(h, Opts([]string{"0"}), &session.LogonSettings{
+			TargetCompID: peerID, SenderCompID: ourID, HeartBtInt: 30, EncryptMethod: "0"}, mem, mem)
+	}
+	if err != nil {
+		return nil, err.Error()
+	}
+	var mu sync.Mutex
+	var wire []WireRec
+	var all [][]byte
+	t0 := time.Now()
+	stop := make(chan struct{})
+	var wg sync.WaitGroup
+	wg.Add(2)
+	go func() { defer wg.Done(); _ = h.Run() }()
+	go func() {
+		defer wg.Done()
+		for {
+			select {
+			case raw := <-h.Outgoing():
+				raw = append([]byte{}, raw...)
+				mu.Lock()
+				wire = append(wire, wireRec(raw, &all, time.Since(t0).Milliseconds()))
+				mu.Unlock()
+			case <-stop:
+				return
+			}
+		}
+	}()
+	defer func() {
+		cancel()
+		close(stop)
+		h.CloseErrorChan()
+		wg.Wait()
+	}()
+	_ = s.Run()
+	p := Peer{}
+	h.ServeIncoming(Inbound(p.next("logon", 30), peerID, ourID, ts(time.Now())))
+	for i := 0; i < 400 && !s.IsLogged(); i++ {
+		time.Sleep(5 * time.Millisecond)
+	}
+	if !s.IsLogged() {
+		return nil, "mid-serialization rig: logon did not succeed"
+	}
+	nwire := func() int { mu.Lock(); defer mu.Unlock(); return len(wire) }
+	waitWire := func(n int) {
+		for i := 0; i < 400 && nwire() < n; i++ {
+			time.Sleep(5 * time.Millisecond)
+		}
+	}
+	waitWire(1)
+	sent := 0
+	for i := 0; i < sc.N; i++ {
+		if s.Send(fixgen.NewMarketDataRequest().SetMDReqID("m"+strconv.Itoa(i))) == nil {
+			sent++
+		}
+	}
+	waitWire(1 + sc.N)
+	// the message that pauses in the middle of its serialization
+	m := fixgen.NewMarketDataRequest().SetMDReqID("paused")
+	pv := &pauseValue{inner: fix.NewString("paused"), entered: make(chan struct{}), release: make(chan struct{})}
+	placed := false
+	for _, it := range m.Body() {
+		if kv, ok := it.(*fix.KeyValue); ok && kv.Key == "262" {
+			kv.Value = pv
+			placed = true
+		}
+	}
+	if !placed {
+		return nil, "mid-serialization rig: MDReqID not found in the message body"
+	}
+	sendDone := make(chan struct{})
+	go func() {
+		if s.Send(m) == nil {
+			mu.Lock()
+			sent++
+			mu.Unlock()
+		}
+		close(sendDone)
+	}()
+	select {
+	case <-pv.entered:
+	case <-time.After(2 * time.Second):
+		return nil, "mid-serialization rig: the serialization never began"
+	}
+	a := p.next("resend", 0)
+	a.B, a.E = 1, 0
+	inDone := make(chan struct{})
+	go func() { h.ServeIncoming(Inbound(a, peerID, ourID, ts(time.Now()))); close(inDone) }()
+	time.Sleep(30 * time.Millisecond) // the dispatch goroutine has taken the request (it may be waiting for the handler's lock)
+	close(pv.release)
+	select {
+	case <-sendDone:
+	case <-time.After(3 * time.Second):
+	}
+	select {
+	case <-inDone:
+	case <-time.After(time.Second):
+	}
+	time.Sleep(100 * time.Millisecond)
+	mu.Lock()
+	defer mu.Unlock()
+	o := &WireObs{K: "wire", ID: sc.ID, Kind: "midser", Start: 0, Virtual: false, Msgs: wire, Expected: sent, Feasible: true, Gate: "", Order: []int{}, ExpEcho: []int{},
+		ExpSender: ints([]byte(ourID)), ExpTarget: ints([]byte(peerID))}
+	if o.Msgs == nil {
+		o.Msgs = []WireRec{}
+	}
+	return o, ""
+}
